@@ -23,8 +23,11 @@ import (
 	"encoding/json"
 	"fmt"
 	"os"
+	"reflect"
 	"sort"
+	"strings"
 	"testing"
+	"unsafe"
 
 	"github.com/aergoio/aergo-lib/db"
 	"github.com/aergoio/aergo/v2/consensus"
@@ -84,6 +87,12 @@ type c08Obs struct {
 	// f below it for which the reset status' NeedReorganization(f) allows a reorganisation
 	PrevLibNo  int64 `json:"prev_lib_no"`
 	AllowBelow int   `json:"allow_below"`
+	// "S"/"R" ops: Saved = the persisted fields (Prpsd, Lib, LpbNo) of the running status when it was
+	// last saved with the chain tip; Boot = the same fields decoded from the chain DB by the real
+	// decodeStatus; BootLpb = bsLoader.lpbNo(), the value BlockFactory.worker starts from
+	Saved   *c08State `json:"saved,omitempty"`
+	Boot    *c08State `json:"boot,omitempty"`
+	BootLpb int64     `json:"boot_lpb"`
 }
 
 // ---- in-memory consensus.ChainDB
@@ -106,11 +115,12 @@ func (t *c08Tx) Commit() {
 func (t *c08Tx) Discard() {}
 
 type c08CDB struct {
-	byNo       map[uint64]*types.Block
-	byHash     map[string]*types.Block
-	best       *types.Block
-	kv         map[string][]byte
-	genesisBPs []string // election engine: GetGenesisInfo().BPs
+	byNo        map[uint64]*types.Block
+	byHash      map[string]*types.Block
+	best        *types.Block
+	kv          map[string][]byte
+	genesisBPs  []string  // election engine: GetGenesisInfo().BPs
+	savedFields *c08State // what the running status held when it was last saved (engine bookkeeping)
 }
 
 func (c *c08CDB) GetBestBlock() (*types.Block, error) {
@@ -198,19 +208,8 @@ func (w *c08World) snapshot(nd *c08Node) c08State {
 	nd.st.Unlock()
 	nd.st.libState.bpid = nd.self
 	ls := nd.st.libState
-	st := c08State{Lpb: ls.LpbNo, Cr: ls.confirmsRequired}
-	if ls.Lib != nil {
-		st.LibNo = ls.Lib.BlockNo
-		st.Lib = w.id(ls.Lib.BlockHash)
-	}
-	for bpid, pl := range ls.Prpsd {
-		if pl == nil {
-			continue
-		}
-		st.Prpsd = append(st.Prpsd, c08Entry{Bp: w.bp(bpid), PlibNo: pl.Plib.BlockNo, Plib: w.id(pl.Plib.BlockHash),
-			ByNo: pl.PlibBy.BlockNo, By: w.id(pl.PlibBy.BlockHash)})
-	}
-	sort.Slice(st.Prpsd, func(i, j int) bool { return st.Prpsd[i].Bp < st.Prpsd[j].Bp })
+	st := *w.fields(ls)
+	st.Cr = ls.confirmsRequired
 	for e := ls.confirms.Front(); e != nil; e = e.Next() {
 		c := cInfo(e)
 		st.Confirms = append(st.Confirms, c08Confirm{No: c.BlockNo, Id: w.id(c.BlockHash), Bp: w.bp(c.bpid),
@@ -219,6 +218,39 @@ func (w *c08World) snapshot(nd *c08Node) c08State {
 	if nd.st.bestBlock != nil {
 		st.Best = w.id(nd.st.bestBlock.ID())
 	}
+	return st
+}
+
+// The persisted fields of libStatus are read by name through reflection (exported or not), and
+// LpbNo through the lpbNo() accessor, so that a rename does not break the build of the engine.
+func c08LsField(ls *libStatus, name string) reflect.Value {
+	v := reflect.ValueOf(ls).Elem()
+	for _, n := range []string{name, strings.ToLower(name[:1]) + name[1:], strings.ToLower(name)} {
+		if f := v.FieldByName(n); f.IsValid() {
+			return reflect.NewAt(f.Type(), unsafe.Pointer(f.UnsafeAddr())).Elem()
+		}
+	}
+	panic("verif C08 engine: libStatus has no field " + name)
+}
+func c08Prpsd(ls *libStatus) proposed { return c08LsField(ls, "Prpsd").Interface().(proposed) }
+func c08Lib(ls *libStatus) *blockInfo { return c08LsField(ls, "Lib").Interface().(*blockInfo) }
+
+// fields: the fields of a libStatus that are saved with the chain tip (gob) and that the model's
+// restore reads: Prpsd, Lib, LpbNo
+func (w *c08World) fields(ls *libStatus) *c08State {
+	st := &c08State{Lpb: ls.lpbNo()}
+	if lib := c08Lib(ls); lib != nil {
+		st.LibNo = lib.BlockNo
+		st.Lib = w.id(lib.BlockHash)
+	}
+	for bpid, pl := range c08Prpsd(ls) {
+		if pl == nil {
+			continue
+		}
+		st.Prpsd = append(st.Prpsd, c08Entry{Bp: w.bp(bpid), PlibNo: pl.Plib.BlockNo, Plib: w.id(pl.Plib.BlockHash),
+			ByNo: pl.PlibBy.BlockNo, By: w.id(pl.PlibBy.BlockHash)})
+	}
+	sort.Slice(st.Prpsd, func(i, j int) bool { return st.Prpsd[i].Bp < st.Prpsd[j].Bp })
 	return st
 }
 
@@ -243,9 +275,9 @@ func (w *c08World) observe(nd *c08Node, o *c08Obs) {
 	o.State = w.snapshot(nd)
 	ls := nd.st.libState
 	o.LibOnMain = true
-	if ls.Lib != nil && ls.Lib.BlockHash != "" {
-		b, err := nd.cdb.GetBlockByNo(ls.Lib.BlockNo)
-		o.LibOnMain = err == nil && b.ID() == ls.Lib.BlockHash
+	if lib := c08Lib(ls); lib != nil && lib.BlockHash != "" {
+		b, err := nd.cdb.GetBlockByNo(lib.BlockNo)
+		o.LibOnMain = err == nil && b.ID() == lib.BlockHash
 	}
 	for no := uint64(0); ; no++ {
 		b, ok := nd.cdb.byNo[no]
@@ -308,6 +340,7 @@ func (w *c08World) deliver(nd *c08Node, blk *types.Block, o *c08Obs) {
 		nd.cdb.byNo[blk.BlockNo()] = blk
 		nd.cdb.best = blk
 		nd.save()
+		nd.cdb.savedFields = w.fields(nd.st.libState)
 		o.Res = "connected"
 		return
 	}
@@ -366,6 +399,7 @@ func (w *c08World) deliver(nd *c08Node, blk *types.Block, o *c08Obs) {
 		}
 		nd.cdb.best = blk
 		nd.save()
+		nd.cdb.savedFields = w.fields(nd.st.libState)
 	}
 	if w.crashAt == 0 {
 		swap() // swapChainMapping + Save in one bulk
@@ -531,6 +565,16 @@ func TestVerifC08Engine(t *testing.T) {
 				o := c08Obs{Op: kind, Node: geti(1), NeedReorg: -1, RootNo: -1}
 				fresh := &c08Node{n: nd.n, self: nd.self, cdb: nd.cdb, sdb: nd.sdb}
 				w.newStatus(fresh)
+				if nd.cdb.savedFields != nil {
+					o.Saved = nd.cdb.savedFields
+					// the real decodeStatus (gob, real DB key) without the rebuild from blocks that
+					// loadLibStatus adds (that part is the restore the model describes)
+					dec := newLibStatusWith(bsLoader.confirmsRequired)
+					if err := bsLoader.decodeStatus(dbkey.DposLibStatus(), dec); err == nil {
+						o.Boot = w.fields(dec)
+					}
+					o.BootLpb = int64(bsLoader.lpbNo()) // what BlockFactory.worker starts from
+				}
 				w.observe(fresh, &o)
 				o.Res = "restored"
 				if kind == "R" {
